@@ -47,9 +47,7 @@ def install(E):
         def elem(i, s=s):
             z = el(xt, boxI_(i))
             E.fact(z3.Implies(z3.And(i >= 0, i < n), ix(xt, z) == i))
-            sv = SV(z, 'val', tag='scalar')
-            sv.app = ('elem', [s, SV(i, 'int')], None)
-            return sv
+            return SV(z, 'val', tag='scalar')
 
         def inv(y):
             return ix(xt, y)
@@ -119,7 +117,7 @@ def install(E):
         if a.items is not None and isinstance(b, SeqV) and b.items is not None and \
                 all(isinstance(x, int) for x in a.items + b.items):
             return SeqV(items=sorted(set(a.items) - set(b.items)), kind='array', esort='int', canon=True)
-        n = z3.Int(fresh_name('ndiff'))
+        n = E.fresh_fun('ndiff', 'int')(z3.IntVal(0))
         E.fact(n >= 0)
         E.fact(n <= a.zlen())
         s = SeqV(length=n, kind='array', esort=a.esort, canon=True)
@@ -127,11 +125,10 @@ def install(E):
         def mem(x):
             return z3.And(E.seq_mem(a, x), z3.Not(bmem(x)))
         s.mem = mem
-        nth = ufunc('nth', 2, 'int' if a.esort == 'int' else 'val')
+        nth = E.fresh_fun('nth', 'int' if a.esort == 'int' else 'val')
 
         def elem(t, s=s):
-            st = E.set_term(s)
-            z = nth(st, boxI_(t))
+            z = nth(t)
             E.fact(z3.Implies(z3.And(t >= 0, t < n), mem(z)))
             sv = SV(z, 'int' if a.esort == 'int' else 'val')
             return sv
